@@ -158,7 +158,7 @@ def r4_r5(ctx):
         return
     # the client dials the magic constant
     dialled = False
-    for key, body in ctx.P.bodies.items():
+    for key, body in ctx.P.scan():
         if "create_udp_proxy" not in key:
             continue
         oc = ctx.origins(body)
